@@ -298,8 +298,11 @@ export function members(prog, t, depth = 3, path = []) {
     case "union":
       return cap(t.m.flatMap((x) => cap(members(prog, x, depth, path), 3)), 10);
     case "inter": {
-      // members of the first operand; callers filter by the reference anyway
-      return cap(t.m.flatMap((x) => cap(R(x), 3)), 8).concat(mergeObjects(t.m.map((x) => R(x)[0]).filter(Boolean)));
+      // merged objects first (an enclosing union keeps only the first few members of each branch), then members
+      // of each operand; callers filter by the reference anyway
+      const cols = t.m.map((x) => R(x));
+      const merged = [...mergeObjects(cols.map((c) => c[0]).filter(Boolean)), ...mergeObjects(cols.map((c) => c[1] ?? c[0]).filter(Boolean)), ...mergeObjects(cols.map((c) => c[0]).filter(Boolean).reverse())];
+      return merged.concat(cap(cols.flatMap((c) => cap(c, 3)), 8));
     }
     case "ref": {
       // names do not consume depth (only structure does); a recursive name is unfolded at most twice on a path
